@@ -37,13 +37,16 @@ CLAIMS['C04'] = {
           '(all exponent differences) and double bit patterns (double + and -: a stated set of exponent differences on every change, all 256 in the thorough tier): '
           'result within 2 ulp (+,-) / less than 1 ulp (*) of the exact result, Overflow only beyond the largest number, zero only below the smallest positive number, '
           'non-canonical zeros included; FloatErrorHandler.handle (soft/hard handling) proved. '
-          'Division (Float._div_den long-division loop) is NOT proved: a bounded stand-in samples operand patterns natively and is reported separately, never counted as proved.',
-  'note': _TB + 'values.mul is verified against the proved contract of Float._denormalise and with the mantissa product as a shared atom with interval axioms (over-approximation). Division: bounded sampling only.',
+          'Division: the long-division loop Float._div_den is proved by loop invariant for all mantissa pairs (invariant r = R div 2^i, 0 <= 2QR - (L-w)2^i <= (i-1)2^i, w <= 2r + i; '
+          'nonlinear integer arithmetic): the quotient mantissa is L/R*2^(p-1) within p/2 units; values.div is then proved for ALL single and double operands against that contract: '
+          'division by zero, zero dividend, sign, Overflow / zero only beyond the limits (within the tolerance), and the result within less than 1 ulp of the exact quotient - except the paths where the proved tolerance comes out at exactly 256/256 ulp '
+          '(double: quotient mantissa below one; single: a double normalisation shift), where "at most one unit" is proved and the strict inequality is only sampled by the bounded task.',
+  'note': _TB + 'values.mul and values.div are verified against the proved contracts of Float._denormalise / Float._div_den (modular); mul with the mantissa product as a shared atom with interval axioms. A bounded native sampling of division (< 1 ulp) still runs and is reported separately, never counted as proved.',
 }
 CLAIMS['C05'] = {
   'text': 'Proof: relational obligations on the real code, all bit patterns: x+y = y+x and x*y = y*x byte for byte (single: all exponent differences; double +: stated set in quick, all in thorough), '
           'x+0 = x, 0+x = x, x*1 = x, x-x = 0 for every zero encoding, -(-x) = x, ABS, SGN for Integer/Single/Double, and promotion of mixed operands to the wider type '
-          '(modular: the arithmetic methods are replaced by recording stubs, the operands they receive are the exactly promoted values). x/1 = x is only covered by the bounded division stand-in of C04.',
+          '(modular: the arithmetic methods are replaced by recording stubs, the operands they receive are the exactly promoted values). x/1 = x bit for bit is proved from the exact power-of-two contract of Float._div_den (loop invariant).',
   'note': _TB + 'Float._denormalise by contract in the multiplication identity; integers are computed in single precision for + - * / (as the code does).',
 }
 
